@@ -1,6 +1,7 @@
 package props
 
 import (
+	"bytes"
 	"fmt"
 	"math"
 
@@ -487,6 +488,31 @@ func c09historyCase(c *vf.Ctx, i int) {
 			}
 			fresh = append(fresh, it)
 			hsh = vf.Mix(hsh, 1, vf.HashBytes(it))
+			if h.m.Loaded && h.m.NHash > 0 && len(h.m.Bits) > 0 && r.Chance(1, 5) && !h.dead {
+				// directly afterwards: a DIFFERENT item constructed to collide
+				// with the previous one under one of the filter's hash
+				// functions (MurmurHash3 is invertible, so anyone who knows the
+				// tweak can do this); under BIP37 it is an ordinary insertion
+				fi := uint32(0)
+				if r.Bool() {
+					fi = uint32(r.Intn(int(h.m.NHash)))
+				}
+				seed := fi*0xFBA4C795 + h.m.Tweak
+				var first [4]byte
+				r.Fill(first[:])
+				y := ref.Murmur3Partner(seed, first, ref.Murmur3(seed, it))
+				if !bytes.Equal(y, it) {
+					h.verify(step)
+					step = fmt.Sprintf("Add(%x) [collides with the previous item under hash function %d]", y, fi)
+					h.log = append(h.log, step)
+					arg2 := append([]byte{}, y...)
+					h.call("Add", func() { h.f.Add(arg2) })
+					h.m.Add(y)
+					h.inserted = append(h.inserted, &c09ins{kind: 0, item: y})
+					fresh = append(fresh, y)
+					c.Inc("insert_colliding_with_previous_item_under_one_hash_function")
+				}
+			}
 		case op < 38: // AddHash
 			var hs chainhash.Hash
 			r.Fill(hs[:])
@@ -648,6 +674,20 @@ func c09historyCase(c *vf.Ctx, i int) {
 			h.cur, h.inserted = nil, nil
 			c.Inc("op_unload")
 			hsh = vf.Mix(hsh, 6)
+		case op >= 97 && h.m.Loaded && h.cur != nil:
+			// the caller rewrites its message struct in place (as a peer
+			// handler decoding the next filterload into the same struct would)
+			// and reloads the SAME pointer
+			_, m, _ := c09newMsg(r)
+			h.cur.Filter = append([]byte(nil), m.Bits...)
+			h.cur.HashFuncs, h.cur.Tweak = m.NHash, m.Tweak
+			step = fmt.Sprintf("message rewritten in place; Reload(same pointer, size=%d k=%d tweak=%#x)", len(m.Bits), m.NHash, m.Tweak)
+			h.log = append(h.log, step)
+			cur := h.cur
+			h.call("Reload", func() { h.f.Reload(cur) })
+			h.m, h.inserted, h.unloaded = m, nil, nil
+			c.Inc("op_reload_same_pointer_after_in_place_rewrite")
+			hsh = vf.Mix(hsh, 7, uint64(len(m.Bits)))
 		default: // IsLoaded / MsgFilterLoad are observed by verify after every step
 			step = "IsLoaded()"
 			h.log = append(h.log, step)
